@@ -44,6 +44,8 @@ Proof. exact send_bdat_orig_refuted. Qed.
 Print Assumptions C19_tx_unrepaired_refuted.
 
 (** * Receiving side (qsmtpd/data.c:smtp_bdat with fixes/C19-bdat-rx-trailing-cr.diff, lib/netio.c:net_readbin).
+    [cfg_clean] fixes the version of smtp_bdat to the one found in the C source of this run
+    ([c_fix cfg = RX_CR_AFTER_LOOP]); the proof needs it to be the repaired one.
     One transaction = BDAT commands [cmds] (size, LAST flag, number of octets already sitting in
     the line reader's buffer), only the final one with LAST.  For every such partition of the
     data into chunks, every read buffer size >= 2 (so every partition of chunks into buffers),
@@ -71,6 +73,15 @@ Theorem C19_rx_fail : forall cfg cmds stream cuts rfail, cfg_ok cfg ->
 Proof. exact rx_session_fail_final. Qed.
 Print Assumptions C19_rx_fail.
 
+(** F-C19-2: the model of the unrepaired smtp_bdat loses a CR at the very end of the data when the
+    LAST chunk is empty ("BDAT 2" a CR, "BDAT 0 LAST" queues only a). *)
+Theorem C19_rx_unrepaired_refuted :
+  let cfg := mk_cfg false None 100 1024 false in
+  exists s evs, rx_session cfg [(2, false, 0); (0, true, 0)] [97; 13]%N [] None = Ok (false, s, evs)
+    /\ ~ rx_delivered [97; 13]%N evs.
+Proof. exact rx_unrepaired_refuted. Qed.
+Print Assumptions C19_rx_unrepaired_refuted.
+
 (** the binary reader: whatever is buffered and however read() cuts the stream, a result is
     exactly the next [num] octets, and nothing is stored outside the caller's buffer *)
 Theorem C19_rx_readbin : forall bufsize num st, num + 1 <= bufsize ->
@@ -87,7 +98,7 @@ Example C19_nonvacuous :
   (let msg := [97; 13; 10; 98; 10; 10; 99; 13]%N in
    exists ws wn, send_bdat 17 msg None = Ok (ws, TxDone, wn) /\ length ws = 4
      /\ tx_norm msg [97; 13; 10; 98; 13; 10; 13; 10; 99; 13; 10]%N)
-  /\ (let cfg := mk_cfg false None 100 4 in
+  /\ (let cfg := mk_cfg false None 100 4 RX_CR_AFTER_LOOP in
       let cmds := [(2, false, 1); (3, false, 0); (0, true, 0)] in
       cfg_clean cfg /\ one_transaction cmds
       /\ exists s evs, rx_session cfg cmds [97; 13; 10; 98; 13]%N [1; 1; 1] None = Ok (false, s, evs)
